@@ -455,7 +455,21 @@ pub fn run_history(ctx: &mut Ctx, w: &World, w2: &World, cfg: &HistCfg) -> bool 
             _ => {}
         }
     }
+    // a revocation secret whose index loop runs long (first canonical SHA3(secret || index) at index 30..38; found by a
+    // one-off search, see revsecrets.rs) as the second scalar draw (the nonce is drawn first): a perfectly ordinary
+    // secret, the run must complete as any other
+    let mut long_loop: Option<u8> = None;
+    if ctx.forced_next.is_empty() && ctx.prng.gen_range(0..5) == 0 {
+        if let Some((sec, i)) = crate::revsecrets::next_long_loop(ctx) {
+            ctx.forced_next = vec![nonzero(&mut ctx.prng), sec];
+            long_loop = Some(i);
+        }
+    }
     let run = match establish_customer(ctx, w, &a) { Some(r) => r, None => return false };
+    if let Some(i) = long_loop {
+        let landed = wire::ser(&run.requested)[128] == i;
+        ctx.count(&format!("long-index-loop-secret-at-establish:{}", if landed { "in-the-state" } else { "not-the-revocation-secret-draw" }));
+    }
     let mut h = Hist { w, w2, a: a.clone(), stage: None, ledger: (a.cb as i128, a.mb as i128), disclosed: vec![], faults_max: cfg.faults_max, restore: cfg.restore, recorded, failed: false };
     let out = match initialize_check(ctx, w, &a, &run.d, if est_zero { None } else { Some(true) }, if est_zero { "degenerate-draw" } else { "honest" }) { Some(o) => o, None => return false };
     let (_closing, vbs) = match out.accepted { Some(x) => x, None => return false };
@@ -541,6 +555,12 @@ pub fn run_history(ctx: &mut Ctx, w: &World, w2: &World, cfg: &HistCfg) -> bool 
                     ctx.count("degenerate:zero-draw-at-start");
                 }
                 _ => {}
+            }
+        }
+        if ctx.forced_next.is_empty() && ctx.prng.gen_range(0..5) == 0 {
+            if let Some((sec, _)) = crate::revsecrets::next_long_loop(ctx) {
+                ctx.forced_next = vec![nonzero(&mut ctx.prng), sec];
+                ctx.count("long-index-loop-secret-at-start");
             }
         }
         match pay_start(ctx, w, &a, ready, amount) {
